@@ -8,7 +8,8 @@
    addition of one, Horner), to_slice, and set_bit (edit the canonical value, re-enter through new_mul_factor) are the
    code's; the oracle is integer arithmetic.  EVERY string up to MaxLen digits is an initial state. *)
 EXTENDS ImplMont, Sequences
-CONSTANT MaxLen
+CONSTANTS MaxLen,
+          DROPCARRY                   \* FALSE = the code; TRUE = divrem without the `|| carry` disjunct (self-test of the model: must be rejected)
 VARIABLE s, kind                       \* kind: "bytes" (digits 0..DB-1) or "dec" (0..9 decimal digits, 10 = any other character)
 
 DB == LB * LB
@@ -36,7 +37,7 @@ DivRemBy(n, m) ==
     LET step(st, i) ==
             LET carry == st[2] >= RR \div 2
                 r1 == ((st[2] * 2) % RR) - (((st[2] * 2) % RR) % 2) + ((n \div (2 ^ i)) % 2)
-            IN IF r1 >= m \/ carry
+            IN IF r1 >= m \/ (carry /\ ~DROPCARRY)
                THEN << IF st[1] >= 0 /\ i < NBits THEN st[1] + 2 ^ i ELSE -1, (r1 + RR - m) % RR >>
                ELSE << st[1], r1 >>
         bits == BitLen(n)
